@@ -31,6 +31,7 @@ REQUIRED_THEOREMS = [
     "C08_rotated_Z_mixed_rbm", "C08_rbm_rho_diag", "C08_mixed_rbm", "C08_rbm_rho_hermitian", "C08_ops_hermitian",
     "C08_mixed_rbm_trace_real", "C08_one_value_per_sample",
     "C08_flag_absolute", "C08_flag_periodic", "C08_flag_any_form",   # round 4: constructor flags as the objects the caller passed
+    "C08_pure_rbm", "C08_pure_rbm_pos",   # second audit C08-A1: hypothesis-free instances for the RBM wavefunctions
 ]
 THEOREMS = {
     "sigmaX": "C08_sigmaX (+ C08_represents_pure/_mixed, C08_no_mutation: run = map of the per-sample value)",
@@ -64,7 +65,12 @@ RULE = ("case = (state kind pos/cplx/dens, n<=5, h, [a], parameter scale in {0.3
         "left out: `-self.c` wraps, finding candidate proposed/F_C08_unsigned_c), the constructor sizes num_visible / num_hidden / num_aux of the states and RBM modules "
         "additionally np.uint8 (keyword or positional; oracle: constructed architecture == requested), the normalisation handed to probability is the "
         "0-d tensor normalization() returned / a float / a np.float64 (keyword or positional), `expand` of rho(space, space) and `include_extras` of "
-        "rotate_psi_inner_prod / rotate_rho_probs are flag objects (keyword or positional); a case without `aseed` replays with plain ints / bools by keyword")
+        "rotate_psi_inner_prod / rotate_rho_probs are flag objects (keyword or positional); a case without `aseed` replays with plain ints / bools by keyword; "
+        "ELEMENT TYPE OF THE BATCH (final pass): every case's 0/1 batch is also applied, in the case's memory layout, as float32 / float16 / int64 / int32 / int16 / int8 / uint8 / bool "
+        "to all five observables (c = 1..n, both boundaries); where the clean code accepts the type (dtype_verdict: NeighbourInteraction all; SigmaZ floating types; SigmaX / SigmaY on "
+        "wavefunctions all signed integer and floating types) the values must be those of the float64 batch and of the model up to the precision of the result's type, one real number per "
+        "sample (B reals; container / precision not constrained), batch bytes unchanged - property level; refused types and the uint8 batch of SigmaX / SigmaY "
+        "(observation proposed/O_C08_uint8_flip) are informational counters")
 
 # forms of the interaction distance `c` the CLEAN code handles (probed: keyword, positional, reassigned attribute; c = 0..n+2, both boundary
 # conditions): everything in qc.INT_FORMS except numpy UNSIGNED scalars.  `NeighbourInteraction(c=np.uint8(k))`: the open chain computes
@@ -126,7 +132,7 @@ def want_sizes(kind, n, h, a):
     return (n, h, a) if kind == "dens" else (n, h)
 
 
-CTOR_THEOREM = "C08_pure_states / C08_mixed_states (stated for the state of the architecture the caller asked for)"
+CTOR_THEOREM = "C08_pure_rbm / C08_pure_rbm_pos / C08_mixed_rbm (stated for the state of the architecture the caller asked for)"
 
 
 def given_Z(A, st, space_t, Zt):
@@ -218,14 +224,48 @@ def rho_hat(st, kind, n, A=None):
     return R / np.trace(R)
 
 
+def one_real_per_sample(r, B):
+    """"returns one real number per sample": B real numbers (a tensor or an array of a real floating / integer element type, shape (B,));
+    the container class and the precision (float64 / float32) are not constrained by the property (second audit, item C08-FA1)"""
+    try:
+        a = r.detach().cpu() if hasattr(r, "detach") else np.asarray(r)
+        if tuple(a.shape) != (B,):
+            return False
+        if hasattr(a, "is_complex"):
+            return not a.is_complex() and a.dtype != torch.bool
+        return a.dtype.kind in "fiu"
+    except Exception:  # noqa: BLE001
+        return False
+
+
+# ---------------------------------------------------------------- element type of the caller's 0/1 batch (final pass)
+# The property says "evaluating an observable returns one real number per sample" for a sample ARRAY; measurement files are read as float32 or
+# integers, comparisons give uint8 / bool.  For every element type and observable family the table says what the CLEAN code does (probed on /repo
+# HEAD, all three state kinds, see notes/C08.md "## Final pass"): a tolerance = the batch is accepted and the values are those of the float64
+# batch up to the precision of the RESULT's element type (verdict: property level); None = refused with an exception, or - SigmaX / SigmaY on a
+# uint8 batch - silently wrong (observation proposed/O_C08_uint8_flip.md): no verdict, outcome counted.
+SAMPLE_DTYPES = ("f32", "f16", "i64", "i32", "i16", "i8", "u8", "bool")
+UINT8_FLIP_REPAIRED = __import__("os").environ.get("QV_C08_UINT8_FLIP") == "1"   # off; switch on once proposed/O_C08_uint8_flip.diff is applied
+_TOL = {"f64": 1e-9, "f32": 2e-6, "f16": 4e-3}
+
+
+def dtype_verdict(family, kind, dt):
+    """tolerance (values lie in [-1, 1] up to the importance ratios) if the clean code evaluates `family` on a batch of element type `dt`, else None"""
+    if family in ("sigmaX", "sigmaY"):     # the batch goes through the state's amplitudes (F.linear with float64 parameters converts it)
+        return 1e-9 if kind != "dens" and dt in ("f32", "f16", "i64", "i32", "i16", "i8") + (("u8",) if UINT8_FLIP_REPAIRED else ()) else None
+    if family == "sigmaZ":                 # samples.mean(1): floating batches only, in the batch's precision
+        return _TOL.get(dt)
+    return _TOL.get(dt, _TOL["f32"])       # NeighbourInteraction: to_pm1 promotes an integer / bool batch to the default floating type
+
+
 def impl_apply(obs, st, samples_t, backing=None, layout=None):
     """returns (values as list | {'error': name}, kind of result, sample tensor (and the rest of its backing buffer) unchanged?)"""
     before = samples_t.numpy().tobytes()
     same = lambda: samples_t.numpy().tobytes() == before and outside_untouched(backing, layout)  # noqa: E731
     try:
         r = obs.apply(st, samples_t)
-        shape_ok = isinstance(r, torch.Tensor) and tuple(r.shape) == (samples_t.shape[0],) and r.dtype == torch.float64
-        vals = r.detach().numpy().astype(np.float64).ravel().tolist()
+        shape_ok = one_real_per_sample(r, samples_t.shape[0])
+        vals = np.asarray(r.detach().cpu().to(torch.float64).numpy() if hasattr(r, "detach") else r, dtype=np.float64).ravel().tolist()
     except Exception as e:  # noqa: BLE001
         return {"error": type(e).__name__}, True, same()
     return vals, shape_ok, same()
@@ -315,7 +355,7 @@ def one_case(ctx, kind, n, h, a, scale, am, ph, samples, full, layout="contig", 
     except Exception as e:  # noqa: BLE001
         imp_err = type(e).__name__
 
-    # ---------------- every apply returns one float64 per sample and does not touch the sample tensor
+    # ---------------- every apply returns one real number per sample and does not touch the sample tensor
     for key, (vals, shape_ok, unchanged, _after) in impl.items():
         if key[0] == "nb" and not 1 <= key[2] <= n:
             # interaction distances outside the property's quantifier (c = 1..n): c = 0 and c = n + 1 are still APPLIED (a crash of the harness
@@ -327,7 +367,7 @@ def one_case(ctx, kind, n, h, a, scale, am, ph, samples, full, layout="contig", 
         ctx.oracle("apply leaves the sample tensor unchanged (bytes)", bool(unchanged), sub, sig=f"{kind}/{key[0]}/no-mutation",
                    theorem=THEOREMS["after"])
         if not isinstance(vals, dict):
-            ctx.oracle("apply returns one float64 per sample", bool(shape_ok), sub, sig=f"{kind}/{key[0]}/shape",
+            ctx.oracle("apply returns one real number per sample (B reals)", bool(shape_ok), sub, sig=f"{kind}/{key[0]}/shape",
                        theorem=THEOREMS["shape"] if key[0] in ("sigmaX", "sigmaY") else None)
     for nm in ("sigmaX", "sigmaY", "sigmaZ"):
         v0, v1 = impl[(nm, False)][0], impl[(nm, True)][0]
@@ -335,6 +375,34 @@ def one_case(ctx, kind, n, h, a, scale, am, ph, samples, full, layout="contig", 
             ctx.oracle("absolute=<true object> is |absolute=<false object>|", bool(np.allclose(np.abs(v0), v1, rtol=1e-12, atol=0)),
                        {**case, "observable": nm, "absolute_given_as": [fdesc[(nm, False)], fdesc[(nm, True)]]},
                        detail={"absolute_false": v0[:8], "absolute_true": v1[:8]}, sig=f"{kind}/{nm}/abs", theorem=THEOREMS["abs"])
+
+    # ---------------- the same batch in every other element type (0/1 values: same logical content), same memory layout
+    dt_impl = {}
+    fams = [("sigmaX", SigmaX, None), ("sigmaY", SigmaY, None), ("sigmaZ", SigmaZ, None)] + \
+           [("nb", NeighbourInteraction, (per, c)) for per in (False, True) for c in range(1, n + 1)]
+    for dt in SAMPLE_DTYPES:
+        for fam, cls, arg in fams:
+            key = (fam, False) if arg is None else ("nb", arg[0], arg[1])
+            ref = impl[key][0]
+            tol = dtype_verdict(fam, kind, dt)
+            t, backing = make_batch(samples, n, layout, dt)
+            obs = cls() if arg is None else cls(periodic_bcs=arg[0], c=arg[1])
+            vals, shape_ok, unchanged, = impl_apply(obs, st, t, backing, layout)
+            nm = fam if arg is None else f"neighbour(periodic={arg[0]},c={arg[1]})"
+            if tol is None or isinstance(ref, dict):
+                ctx.count(f"batch dtype {dt} / {fam} / {kind} (no verdict: the clean code refuses it or - uint8 through flip_spin - is wrong): "
+                          + ("raises" if isinstance(vals, dict) else "returns values"))
+                continue
+            ctx.count(f"batch dtype {dt}: verdict")
+            sub = {**case, "observable": nm, "batch_dtype": dt}
+            ctx.oracle(f"apply on the batch given as {dt} leaves it unchanged (bytes)", bool(unchanged), sub, sig=f"{kind}/{fam}/no-mutation/dtype",
+                       theorem=THEOREMS["after"])
+            ok = not isinstance(vals, dict) and shape_ok and len(vals) == len(ref) and \
+                bool(np.allclose(vals, ref, rtol=0, atol=tol * max(1.0, float(np.max(np.abs(ref))) if len(ref) else 1.0)))
+            ctx.oracle(f"{nm}.apply(batch of element type {dt}) == one real number per sample, the value of the same 0/1 batch given as float64", ok, sub,
+                       detail={"as_" + dt: vals if isinstance(vals, dict) else vals[:8], "as_float64": ref[:8], "atol": tol},
+                       sig=f"{kind}/{fam}/batch-dtype", theorem=THEOREMS["shape"] if fam in ("sigmaX", "sigmaY") else THEOREMS.get(fam, THEOREMS["open"]))
+            dt_impl[(dt, key)] = (vals, tol, nm)
 
     # ---------------- model
     if ctx.driver is not None:
@@ -363,6 +431,14 @@ def one_case(ctx, kind, n, h, a, scale, am, ph, samples, full, layout="contig", 
                 cmp_vals(ctx, f"NeighbourInteraction(periodic={per} given as {fdesc[('nb', per)]['form']},c={c}).apply", lvl, impl[("nb", per, c)][0], model[mk][ci],
                          {**case, "observable": "neighbour", "periodic": per, "c": c, "c_given_as": cform[(per, c)], "flag_given_as": fdesc[("nb", per)]},
                          THEOREMS[mk] + "; C08_flag_periodic", f"{kind}/neighbour/{mk}")
+        for (dt, key), (vals, tol, nm) in dt_impl.items():
+            mv = model[key[0]]["vals"] if key[0] != "nb" else model["periodic" if key[1] else "open"][cs.index(key[2])]
+            if isinstance(vals, dict) or isinstance(mv, dict):
+                continue   # (the oracle above has the verdict)
+            m = unbits(mv) if len(mv) else np.zeros(0)
+            ctx.point(f"{nm}.apply(batch of element type {dt})", "property", vals, m, {**case, "observable": nm, "batch_dtype": dt},
+                      scale=max(1.0, float(np.max(np.abs(m))) if len(m) else 1.0), rtol=0, atol=tol,
+                      theorem=THEOREMS[key[0]] if key[0] != "nb" else THEOREMS["periodic" if key[1] else "open"], sig=f"{kind}/{key[0]}/batch-dtype")
         if imp_err is None:
             sc = float(np.max(np.abs(i_numer))) + 1e-300
             mn = np.array([[unbits(z)[0], unbits(z)[1]] for z in model["numer"]]).T
